@@ -352,6 +352,36 @@ func runC04(e *Env) {
 	_ = accepted
 	e.R.AddPart(ev.Part{Name: "all-strings", Enumerated: fmt.Sprintf("every string of length 1..%d over the 17-character alphabet %q", maxLen, strings.Join(A, "")), Executions: int64(total), Exhaustive: true})
 
+	// (1b) unusual characters: tab, CR, non-ASCII letters, Unicode accidentals, NUL, invalid UTF-8
+	exotic := []string{"C", "2", "m", "_", "/", "[", "]", "{", "}", "=", "\t", "\r", "é", "♭", "\x00", "\xff", "　"}
+	exLen := 3
+	if e.Thorough {
+		exLen = 4
+	}
+	var exStrs []string
+	var exGen func(s string, n int)
+	exGen = func(s string, n int) {
+		if s != "" {
+			exStrs = append(exStrs, s)
+		}
+		if n == 0 {
+			return
+		}
+		for _, a := range exotic {
+			exGen(s+a, n-1)
+		}
+	}
+	exGen("", exLen)
+	for _, s := range []string{"Cm\t[2]", "C_m\r[2]", "Cé[2]", "C[2]{é=♭}", "C♭m/E♭[2]", "C\x00[2]", "C[2]　R[2]", "C[2]\r\nR[2]"} {
+		exStrs = append(exStrs, s)
+	}
+	mc.ParFor(len(exStrs), func(i int) {
+		if !c04Text(e, p, exStrs[i], false) {
+			c04Text(e, p, exStrs[i], true)
+		}
+	})
+	e.R.AddPart(ev.Part{Name: "unusual-characters", Enumerated: fmt.Sprintf("every string of length 1..%d over 17 symbols including tab, CR, é, ♭, ideographic space, NUL and an invalid UTF-8 byte, plus 8 longer texts", exLen), Executions: int64(len(exStrs)), Exhaustive: true})
+
 	// (2) pruned deep sweep: every reference-viable prefix extended by every character, dead ones by two more
 	deep := 6
 	if e.Thorough {
